@@ -132,17 +132,32 @@ fn zeros(n: usize) -> String {
     vec![ZERO_PT; n].join(" ")
 }
 
-/// all vectors in {-1,0,1}^k except 0
-pub fn residual_vectors(k: usize) -> Vec<Vec<i8>> {
+/// all vectors in {-b..b}^k except 0
+pub fn residual_box(k: usize, b: i8) -> Vec<Vec<i8>> {
     let mut out = vec![];
-    let n = 3usize.pow(k as u32);
+    let side = (2 * b + 1) as usize;
+    let n = side.pow(k as u32);
     for mut i in 0..n {
         let mut v = vec![];
         for _ in 0..k {
-            v.push((i % 3) as i8 - 1);
-            i /= 3;
+            v.push((i % side) as i8 - b);
+            i /= side;
         }
         if v.iter().any(|x| *x != 0) {
+            out.push(v);
+        }
+    }
+    out
+}
+/// the family named by the properties, {-1,0,1}^k \ 0, extended by the box {-2..2}^k (all of it
+/// when it is small, otherwise the vectors with at most two non-zero entries): catches weights that
+/// became linearly dependent with small integer coefficients (`w + w` for `w * w`, a shared power, ...)
+pub fn residual_vectors(k: usize) -> Vec<Vec<i8>> {
+    let mut out = residual_box(k, 1);
+    for v in residual_box(k, 2) {
+        let big = v.iter().any(|x| x.abs() == 2);
+        let nz = v.iter().filter(|x| **x != 0).count();
+        if big && (k <= 3 || nz <= 2) {
             out.push(v);
         }
     }
@@ -151,9 +166,9 @@ pub fn residual_vectors(k: usize) -> Vec<Vec<i8>> {
 pub fn offsets(v: &[i8], rp: &RistrettoPoint) -> String {
     v.iter()
         .map(|x| match x {
-            1 => hp(rp),
-            -1 => hp(&-rp),
-            _ => ZERO_PT.to_string(),
+            0 => ZERO_PT.to_string(),
+            k if *k > 0 => hp(&(Scalar::from(*k as u64) * rp)),
+            k => hp(&-(Scalar::from((-*k) as u64) * rp)),
         })
         .collect::<Vec<_>>()
         .join(" ")
@@ -632,4 +647,205 @@ pub fn gen_c03(o: &mut Out, tier: &str, seed: u64) {
         let st = cap_below(&mut r, 2, 5, 9);
         mutate_fields(o, &mut r, "cap", &st.wit(), &[136, 168, 264, 296, 328], &[0, 32, 64, 104, 200, 232], th);
     }
+}
+
+// ------------------------------------------------------------------ C05 (completeness) / C20 (refusal)
+const AMOUNTS: [u64; 10] = [0, 1, 2, 65535, (1 << 32) - 1, 1 << 32, (1 << 32) + 1, 1 << 63, u64::MAX - 1, u64::MAX];
+
+/// honest witnesses for the nine sigma constructors; each is run as `new` (context bytes compared
+/// with the model's encoding of the statement) and as `prove` (proof verified by both sides, both provers)
+pub fn gen_c05(o: &mut Out, tier: &str, seed: u64) {
+    let mut r = Rng::new(seed, "c05");
+    let th = tier == "thorough";
+    let reps = if th { 20 } else { 1 };
+    let emit = |o: &mut Out, r: &mut Rng, fam: &str, instr: &str, wit: &str, nn: usize| {
+        let ns = nonces(r, nn);
+        o.op(&format!("{}.new", fam), &format!("new {} {} {}", instr, wit, ns));
+        o.op(&format!("{}.prove", fam), &format!("prove {} {} {}", instr, wit, ns));
+    };
+    for _ in 0..reps {
+        // zero-ciphertext: encryption of zero under any key, any opening incl. one making a valid non-identity ct
+        let st = zero_st(&mut r, &Scalar::ZERO);
+        emit(o, &mut r, "zero", "zero", &st.wit(), 1);
+        let k = kp(&mut r);
+        emit(o, &mut r, "pubkey", "pubkey", &format!("{} {}", hs(&k.s), hp(&k.p)), 1);
+        // secret key = 1 and = l-1 (boundary scalars)
+        for s in [Scalar::ONE, -Scalar::ONE] {
+            let p = s.invert() * *H;
+            emit(o, &mut r, "pubkey.boundary-key", "pubkey", &format!("{} {}", hs(&s), hp(&p)), 1);
+        }
+        for (i, a) in AMOUNTS.iter().enumerate() {
+            if !th && i % 3 != (seed % 3) as usize && i != 0 && i != 9 { continue; }
+            let st = ctct_st(&mut r, *a, *a);
+            emit(o, &mut r, "ctct", "ctct", &st.wit(), 3);
+            let st = ctcmt_st(&mut r, *a, *a);
+            emit(o, &mut r, "ctcmt", "ctcmt", &st.wit(), 3);
+            let b = *r.pick(&AMOUNTS);
+            let s = val_st(&mut r, 2, *a, None);
+            emit(o, &mut r, "val2", "val2", &s.wit(), 2);
+            let s = val_st(&mut r, 3, *a, None);
+            emit(o, &mut r, "val3", "val3", &s.wit(), 2);
+            let s = bval_st(&mut r, 2, *a, b, None);
+            emit(o, &mut r, "bval2", "bval2", &s.wit(), 2);
+            let s = bval_st(&mut r, 3, *a, b, None);
+            emit(o, &mut r, "bval3", "bval3", &s.wit(), 2);
+        }
+        // identity auditor key at the instruction level
+        for n in [2usize, 3] {
+            let mut ps: Vec<RistrettoPoint> = (0..n).map(|_| kp(&mut r).p).collect();
+            ps[n - 1] = RistrettoPoint::identity();
+            let a = amount(&mut r);
+            let s = val_st(&mut r, n, a, Some(ps.clone()));
+            emit(o, &mut r, "val.id-auditor", &format!("val{}", n), &s.wit(), 2);
+            let s = bval_st(&mut r, n, a, 3, Some(ps));
+            emit(o, &mut r, "bval.id-auditor", &format!("bval{}", n), &s.wit(), 2);
+        }
+        // second ciphertext = identity for ct-ct equality (amount 0, opening 0)
+        let mut z = ctct_st(&mut r, 0, 0);
+        z.c2 = RistrettoPoint::identity();
+        z.d2 = RistrettoPoint::identity();
+        z.r = Scalar::ZERO;
+        emit(o, &mut r, "ctct.id-second", "ctct", &z.wit(), 3);
+        // cap proof: below the cap (fee < max), and exactly at the cap with the implied delta commitment
+        for (pct, max) in [(0u64, 1u64), (2, 3), (999, 1000), (u64::MAX - 1, u64::MAX)] {
+            let d = amount(&mut r);
+            let s = cap_below(&mut r, pct, max, d);
+            emit(o, &mut r, "cap.below", "cap", &s.wit(), 10);
+        }
+        for (base, bp, max) in [(1_000_000u64, 400u16, 3u64), (u64::MAX, 10_000, 1), (5, 1, 0), (123_456_789, 9_999, u64::MAX)] {
+            let claimed = amount(&mut r);
+            let s = cap_at(&mut r, base, bp, max, claimed);
+            emit(o, &mut r, "cap.at-cap", "cap", &s.wit(), 10);
+        }
+        // above the cap as the prover sees it (percentage_amount > max is not a valid statement for the
+        // constructor's own check unless the commitment opens to it: pct = max+1 committed)
+        let s = cap_below(&mut r, 10, 10, 4); // pct == max through cap_below: at-cap branch with delta == claimed
+        emit(o, &mut r, "cap.at-cap-equal", "cap", &s.wit(), 10);
+    }
+}
+
+/// witnesses violating exactly one relation of each constructor: must be refused by both sides
+pub fn gen_c20(o: &mut Out, tier: &str, seed: u64) {
+    let mut r = Rng::new(seed, "c20");
+    let th = tier == "thorough";
+    let reps = if th { 10 } else { 1 };
+    let rp = |r: &mut Rng| rand_nonzero(r) * G;
+    for _ in 0..reps {
+        let bad = |o: &mut Out, r: &mut Rng, fam: &str, instr: &str, wit: String, nn: usize| {
+            let ns = nonces(r, nn);
+            o.op_exp(fam, "err", &format!("new {} {} {}", instr, wit, ns));
+        };
+        let good = |o: &mut Out, r: &mut Rng, fam: &str, instr: &str, wit: String, nn: usize| {
+            let ns = nonces(r, nn);
+            o.op(fam, &format!("new {} {} {}", instr, wit, ns));
+        };
+        // zero: non-zero plaintext (1, random, l-1), wrong key
+        for m in [Scalar::ONE, rand_nonzero(&mut r), -Scalar::ONE] {
+            let f = zero_st(&mut r, &m);
+            bad(o, &mut r, "zero.nonzero", "zero", f.wit(), 1);
+        }
+        let mut f = zero_st(&mut r, &Scalar::ZERO);
+        f.k.s = rand_nonzero(&mut r);
+        bad(o, &mut r, "zero.wrong-key", "zero", f.wit(), 1);
+        let f = zero_st(&mut r, &Scalar::ZERO);
+        good(o, &mut r, "zero.ok", "zero", f.wit(), 1);
+        // ctct: first does not decrypt to amount; second commitment / handle / key mismatch; amount off by one
+        let a = amount(&mut r);
+        let mut f = ctct_st(&mut r, a, a); f.c1 += rp(&mut r);
+        bad(o, &mut r, "ctct.first-commitment", "ctct", f.wit(), 3);
+        let mut f = ctct_st(&mut r, a, a); f.d1 += rp(&mut r);
+        bad(o, &mut r, "ctct.first-handle", "ctct", f.wit(), 3);
+        let mut f = ctct_st(&mut r, a, a); f.c2 += rp(&mut r);
+        bad(o, &mut r, "ctct.second-commitment", "ctct", f.wit(), 3);
+        let mut f = ctct_st(&mut r, a, a); f.d2 += rp(&mut r);
+        bad(o, &mut r, "ctct.second-handle", "ctct", f.wit(), 3);
+        let mut f = ctct_st(&mut r, a, a); f.r = rand_scalar(&mut r);
+        bad(o, &mut r, "ctct.second-opening", "ctct", f.wit(), 3);
+        let mut f = ctct_st(&mut r, a, a); f.amt = a.wrapping_add(1);
+        bad(o, &mut r, "ctct.amount", "ctct", f.wit(), 3);
+        let f = ctct_st(&mut r, a, a.wrapping_add(1));
+        bad(o, &mut r, "ctct.unequal", "ctct", f.wit(), 3);
+        let mut f = ctct_st(&mut r, a, a); f.k1.s = rand_nonzero(&mut r);
+        bad(o, &mut r, "ctct.wrong-key", "ctct", f.wit(), 3);
+        let f = ctct_st(&mut r, a, a);
+        good(o, &mut r, "ctct.ok", "ctct", f.wit(), 3);
+        // ctcmt
+        let mut f = ctcmt_st(&mut r, a, a); f.c += rp(&mut r);
+        bad(o, &mut r, "ctcmt.ct-commitment", "ctcmt", f.wit(), 3);
+        let mut f = ctcmt_st(&mut r, a, a); f.d += rp(&mut r);
+        bad(o, &mut r, "ctcmt.ct-handle", "ctcmt", f.wit(), 3);
+        let mut f = ctcmt_st(&mut r, a, a); f.cm += rp(&mut r);
+        bad(o, &mut r, "ctcmt.commitment", "ctcmt", f.wit(), 3);
+        let mut f = ctcmt_st(&mut r, a, a); f.r = rand_scalar(&mut r);
+        bad(o, &mut r, "ctcmt.opening", "ctcmt", f.wit(), 3);
+        let mut f = ctcmt_st(&mut r, a, a); f.amt = a.wrapping_sub(1);
+        bad(o, &mut r, "ctcmt.amount", "ctcmt", f.wit(), 3);
+        let f = ctcmt_st(&mut r, a, a);
+        good(o, &mut r, "ctcmt.ok", "ctcmt", f.wit(), 3);
+        // validity: each point of the grouped ciphertext, each key, amount, opening
+        for n in [2usize, 3] {
+            let name = format!("val{}", n);
+            for i in 0..(n + 1) {
+                let mut f = val_st(&mut r, n, a, None);
+                if i == 0 { f.c += rp(&mut r); } else { f.ds[i - 1] += rp(&mut r); }
+                bad(o, &mut r, &format!("{}.point{}", name, i), &name, f.wit(), 2);
+            }
+            for i in 0..n {
+                let mut f = val_st(&mut r, n, a, None);
+                f.ps[i] = kp(&mut r).p;
+                bad(o, &mut r, &format!("{}.key{}", name, i), &name, f.wit(), 2);
+            }
+            let mut f = val_st(&mut r, n, a, None); f.amt = a ^ 1;
+            bad(o, &mut r, &format!("{}.amount", name), &name, f.wit(), 2);
+            let mut f = val_st(&mut r, n, a, None); f.r = rand_scalar(&mut r);
+            bad(o, &mut r, &format!("{}.opening", name), &name, f.wit(), 2);
+            let f = val_st(&mut r, n, a, None);
+            good(o, &mut r, &format!("{}.ok", name), &name, f.wit(), 2);
+            // batched: lo / hi separately
+            let bname = format!("bval{}", n);
+            for hi in [false, true] {
+                for i in 0..(n + 1) {
+                    let mut f = bval_st(&mut r, n, a, 9, None);
+                    let t = if hi { &mut f.hi } else { &mut f.lo };
+                    if i == 0 { t.c += rp(&mut r); } else { t.ds[i - 1] += rp(&mut r); }
+                    bad(o, &mut r, &format!("{}.{}.point{}", bname, if hi { "hi" } else { "lo" }, i), &bname, f.wit(), 2);
+                }
+                let mut f = bval_st(&mut r, n, a, 9, None);
+                if hi { f.hi.amt ^= 1 } else { f.lo.amt ^= 1 }
+                bad(o, &mut r, &format!("{}.{}.amount", bname, if hi { "hi" } else { "lo" }), &bname, f.wit(), 2);
+                let mut f = bval_st(&mut r, n, a, 9, None);
+                if hi { f.hi.r = rand_scalar(&mut r) } else { f.lo.r = rand_scalar(&mut r) }
+                bad(o, &mut r, &format!("{}.{}.opening", bname, if hi { "hi" } else { "lo" }), &bname, f.wit(), 2);
+            }
+            // lo and hi swapped (each valid for the other's amount)
+            let f = bval_st(&mut r, n, 5, 9, None);
+            let sw = BVal { lo: Val { amt: 5, r: f.lo.r, ..val_clone(&f.hi) }, hi: Val { amt: 9, r: f.hi.r, ..val_clone(&f.lo) } };
+            bad(o, &mut r, &format!("{}.swapped", bname), &bname, sw.wit(), 2);
+            let f = bval_st(&mut r, n, a, 9, None);
+            good(o, &mut r, &format!("{}.ok", bname), &bname, f.wit(), 2);
+        }
+        // cap: percentage, claimed always; delta only below the cap
+        let mut f = cap_below(&mut r, 2, 5, 9); f.cm += rp(&mut r);
+        bad(o, &mut r, "cap.percentage", "cap", f.wit(), 10);
+        let mut f = cap_below(&mut r, 2, 5, 9); f.pct = 3;
+        bad(o, &mut r, "cap.percentage-amount", "cap", f.wit(), 10);
+        let mut f = cap_below(&mut r, 2, 5, 9); f.cc += rp(&mut r);
+        bad(o, &mut r, "cap.claimed", "cap", f.wit(), 10);
+        let mut f = cap_below(&mut r, 2, 5, 9); f.cd += rp(&mut r);
+        bad(o, &mut r, "cap.delta-below-cap", "cap", f.wit(), 10);
+        let mut f = cap_below(&mut r, 2, 5, 9); f.rd = rand_scalar(&mut r);
+        bad(o, &mut r, "cap.delta-opening-below-cap", "cap", f.wit(), 10);
+        let mut f = cap_at(&mut r, 1_000_000, 400, 3, 7); f.cc += rp(&mut r);
+        bad(o, &mut r, "cap.claimed-at-cap", "cap", f.wit(), 10);
+        let mut f = cap_at(&mut r, 1_000_000, 400, 3, 7); f.cm += rp(&mut r);
+        bad(o, &mut r, "cap.percentage-at-cap", "cap", f.wit(), 10);
+        let f = cap_below(&mut r, 2, 5, 9);
+        good(o, &mut r, "cap.ok-below", "cap", f.wit(), 10);
+        let f = cap_at(&mut r, 1_000_000, 400, 3, 7);
+        good(o, &mut r, "cap.ok-at-cap", "cap", f.wit(), 10);
+    }
+}
+
+fn val_clone(v: &Val) -> Val {
+    Val { ps: v.ps.clone(), c: v.c, ds: v.ds.clone(), r: v.r, amt: v.amt }
 }
